@@ -27,6 +27,7 @@ var checks = map[string]func(*rules.Ctx){
 	"C16": rules.C16,
 	"C17": rules.C17,
 	"C18": rules.C18,
+	"C19": rules.C19,
 }
 
 func main() {
